@@ -49,8 +49,8 @@ def write_module(d, source, modname=None):
         with open(helper, 'w', encoding='utf8') as f:
             f.write(gm.HELPER_SOURCE)
     path = os.path.join(d, modname + '.py')
-    with open(path, 'w', encoding='utf8') as f:
-        f.write(source)
+    with open(path, 'wb') as f:
+        f.write(C.to_bytes(source))        # BOM / \r\n / cookie as the text's own `# xdv-variant:` line says
     return path, modname
 
 
@@ -109,6 +109,12 @@ def prose_first_ids(m, style):
             if b is not None and b.prose_first}
 
 
+def exotic_freeform_ids(m, style):
+    """examples read in FREEFORM style from a docstring with exotic line-break characters: the parser counts
+    splitlines() lines, so their numbers are shifted (K-C08-c); kept out of the line expectations"""
+    return set('%s:%d' % (cn, num) for (cn, num, fp, bf, d, b) in gm.expected_examples(m, style) if b is None and d.exotic)
+
+
 def check_examples(m, style, obs):
     """compare the observation of parse_doctestables with the expectation. returns list of
     (what, expected, observed, finding-tag or None)"""
@@ -120,9 +126,10 @@ def check_examples(m, style, obs):
         out.append(('identifiers', ids_exp, ids_obs, None))
         return out
     pf = prose_first_ids(m, style)
+    kc = exotic_freeform_ids(m, style)
     for (cn, num, fp), o in zip(exp, obs):
         key = '%s:%d' % (cn, num)
-        if fp is None:
+        if fp is None or key in kc:
             continue
         if o[2] != fp:
             tag = None
@@ -137,7 +144,7 @@ def check_examples(m, style, obs):
 # ------------------------------------------------------------------ model (driver) side
 
 def model_calldefs(sources):
-    lines = ['calldefs\t%s\t%s' % (enc_list(s.splitlines()), C.module_tokens(s)) for s in sources]
+    lines = ['calldefs\t%s\t%s' % (enc_list(C.as_seen(s).splitlines()), C.module_tokens(s)) for s in sources]
     return driver.run_lines(lines, jobs=1)
 
 
